@@ -238,6 +238,10 @@ def s5_sizers(ctx):
         ps, sp = sizing_paths(ctx, cname)
         for p in ps:
             if p.outcome == 'return' and not any(e.kind == 'loop' for e in p.events):
+                if p.value is not None and p.value != ('dict', ()) and p.value[0] in ('comp', 'call', 'accum') and not is_empty_weights_path(p):
+                    # a target built without a statement-level loop (comprehension, helper object): not the early return this clause is about
+                    ctx.undecided('C09.S5', '%s sizes in a statement-level loop' % cname, fn.site(), fmt(p.value)[:100])
+                    continue
                 ok = is_empty_weights_path(p) and p.value == ('dict', ())
                 ctx.require(ok, 'C09.S5', '%s returns without sizing only for an empty weight dict (and then an empty target)' % cname, fn.site(),
                             '[%s] -> %s' % (cond_str(p)[:100], fmt(p.value)[:40]), key='C09.S5|%s|early-return' % cname)
